@@ -157,6 +157,10 @@ def check_run(ctx, cfg, dev, kw, ref, k, N, Tend, with_model=True):
             canon.append(f"{fr['step']}:{V.bits(fr['time'])}:{thermal + fr['step']}:{recs}")
         want = f"done final={thermal + N} " + " ".join(canon)
         ctx.corr(res.strip() == want.strip(), "Lean run model vs HDF5 trace", dict(tag, model=res[:400], impl=want[:400]))
+        # reader side: Solution.times vs the Lean `solutionTimes` on the per-step time steps read back
+        (tm,) = V.driver([f"times {k} | " + " ".join(str(V.bits(x)) for x in np.asarray(sol.dynamics.dt, dtype=float))])
+        got_bits = " ".join(str(V.bits(x)) for x in np.asarray(sol.times, dtype=float))
+        ctx.corr(tm.strip() == got_bits, "Lean solutionTimes vs Solution.times (bit patterns)", dict(tag, model=tm[:200], impl=got_bits[:200]))
     if len(ctx.samples) < 5 and N >= 2:
         ctx.samples.append(dict(config=name, k=k, N=N, labels=labels, times=[float(fr["time"]) for fr in frames], dt=[float(x) for x in ref.dts[:N]]))
     try:
